@@ -48,6 +48,10 @@ type c13Case struct {
 	// DuplexHandler: the bidi handler answers each request from a second
 	// goroutine while its main loop is already receiving the next one.
 	DuplexHandler bool  `json:"duplex_handler,omitempty"`
+	// RecvFirst (one bidi stream): the receiver goroutine starts on its own, not
+	// after the sender's first Send, and the sender fills in the request headers
+	// just before that Send ("headers are sent with the first call to Send").
+	RecvFirst bool `json:"recv_first,omitempty"`
 	Bound         int   `json:"bound"`
 	Sub           int   `json:"sub"`  // sub-shard of the root's children
 	Subs          int   `json:"subs"` //
@@ -372,10 +376,19 @@ func c13Body(k c13Case, s *bsched.Sched) any {
 		panic("solo runs use c13Solo")
 	case k.OneBidi:
 		stream := cl.CallBidiStream(ctx)
-		stream.RequestHeader().Set("X-Call", "0")
+		if !k.RecvFirst {
+			stream.RequestHeader().Set("X-Call", "0")
+		}
 		pay := c13Payloads(0, k.Calls[0].Sizes)
 		first := make(chan struct{})
-		s.Go("a.send", func() {
+		sender := "a.send"
+		if k.RecvFirst {
+			sender = "z.send" // sorts after the receiver and the goroutines it starts: the default schedule lets the receiver go first
+		}
+		s.Go(sender, func() {
+			if k.RecvFirst {
+				stream.RequestHeader().Set("X-Call", "0")
+			}
 			for i, p := range pay {
 				_ = stream.Send(&BV{Value: p})
 				if i == 0 {
@@ -388,7 +401,9 @@ func c13Body(k c13Case, s *bsched.Sched) any {
 			_ = stream.CloseRequest()
 		})
 		s.Go("b.recv", func() {
-			<-first
+			if !k.RecvFirst {
+				<-first
+			}
 			s.Gate("b.go")
 			for {
 				m, err := stream.Receive()
@@ -591,6 +606,14 @@ func c13Scenarios(thorough bool) []c13Case {
 	sharedFail := c13Call{Sizes: []int{4}, ErrCode: -1}
 	add("server-shared-error", Cfg{Proto: PConnect, Comp: CompDefault, Kind: KServer}, false, sharedFail, sharedFail)
 	add("one-bidi-send-recv", Cfg{Proto: PGRPC, Comp: CompDefault, Kind: KBidi}, true, two)
+	// ... with the receiver started on its own and the headers set by the sender just before its first Send
+	for _, p := range AllProtos {
+		for sub := 0; sub < 4; sub++ {
+			for _, rr := range []bool{false, true} {
+				out = append(out, c13Case{Name: "one-bidi-recv-first", Cfg: Cfg{Proto: p, Comp: CompDefault, Kind: KBidi, HTTP: 2}, Calls: []c13Call{two}, OneBidi: true, RecvFirst: true, Bound: 1, Sub: sub, Subs: 4, RR: rr})
+			}
+		}
+	}
 	// one bidi stream, client sends and receives concurrently, full-duplex handler, compressed both ways
 	for _, p := range AllProtos {
 		for sub := 0; sub < 4; sub++ {
@@ -686,6 +709,7 @@ func TestC13(t *testing.T) {
 	c.Bound("threads", map[bool]string{false: "2", true: "2 (one scenario with 3)"}[thorough])
 	c13MixedPeers(t, c)
 	c13HandlerEndOfStream(t, c)
+	c13TruncatedAfterHonest(t, c)
 	cases := c13Scenarios(thorough)
 	for i, k := range cases {
 		if !ev.Mine(i) {
@@ -872,4 +896,78 @@ func c13HandlerEndOfStream(t *testing.T, c *ev.Collector) {
 		}
 		c.Outcome("ok")
 	})
+}
+
+// c13TruncatedAfterHonest: honest calls with distinct payloads go through a
+// shared handler, then a peer posts an envelope that promises more bytes than
+// it sends.  The truncated request must be refused, and whatever the handler is
+// handed for it (if anything) must not contain bytes of the earlier calls nor
+// of released buffers (the pool shim poisons them).
+func c13TruncatedAfterHonest(t *testing.T, c *ev.Collector) {
+	if s, _ := ev.Shard(); s != 0 {
+		return
+	}
+	for _, p := range AllProtos {
+		ct := map[Proto]string{PConnect: "application/connect+proto", PGRPC: "application/grpc+proto", PGRPCWeb: "application/grpc-web+proto"}[p]
+		key := fmt.Sprintf("truncated-after-honest/%s", p)
+		c.Case(key, true)
+		Bubble(t, func() {
+			var got [][]byte
+			h := NewHandler(KBidi, func(ctx context.Context, s HStream) error {
+				for {
+					m, err := s.Receive()
+					if err != nil {
+						if !errors.Is(err, io.EOF) {
+							return err
+						}
+						return nil
+					}
+					got = append(got, cloneBytes(m.Value))
+					if err := s.Send(&BV{Value: m.Value}); err != nil {
+						return err
+					}
+				}
+			})
+			tr := &memhttp.Transport{Handler: h, Proto: 2, SyncCloseReq: true}
+			cl := NewClient(tr, Cfg{Proto: p, Comp: CompNone})
+			secret := bytes.Repeat([]byte("<secret of the honest caller>"), 60) // 1740 bytes
+			for i := 0; i < 3; i++ {
+				g := Guarded(func() { _ = RunCall(context.Background(), cl, KBidi, [][]byte{secret}, nil) }, tr)
+				if g.Hung || g.Panicked {
+					c.HarnessError("%s: honest call hung or panicked", key)
+					BailIfStuck(c, g)
+					return
+				}
+			}
+			honest := len(got)
+			// promises 1203 payload bytes, delivers 163
+			full := refwire.Envelope(0, codecMarshal(false, &BV{Value: bytes.Repeat([]byte{'t'}, 1200)}))
+			req := httptest.NewRequest("POST", "http://mem.test"+Procedure, bytes.NewReader(full[:5+163]))
+			req.ProtoMajor, req.ProtoMinor, req.Proto = 2, 0, "HTTP/2.0"
+			req.Header.Set("Content-Type", ct)
+			rec := httptest.NewRecorder()
+			g := Guarded(func() { h.ServeHTTP(rec, req) })
+			c.AddStates(5)
+			c.AddTransitions(5)
+			tags := []string{"proto=" + p.String(), "truncated-after-honest"}
+			if g.Hung || g.Panicked {
+				c.Violation(c13TestName, "terminates", "hang-or-panic", tags, key, "%s: hung=%v panic=%v", key, g.Hung, g.Panic)
+				BailIfStuck(c, g)
+				return
+			}
+			for _, m := range got[honest:] {
+				if bytes.Contains(m, []byte("secret")) || bytes.Contains(m, poisonSeq) {
+					c.Violation(c13TestName, "no-cross-talk", "foreign-bytes", tags, key, "%s: for an envelope that promised 1203 bytes and delivered 163 the handler was handed a %d-byte message holding bytes of an earlier call or of a released buffer: %s", key, len(m), shortBytes(m))
+					c.Outcome("violation")
+					return
+				}
+			}
+			if len(got) != honest {
+				c.Violation(c13TestName, "no-cross-talk", "phantom-message", tags, key, "%s: the truncated envelope was delivered to the handler as a message of %d bytes", key, len(got[honest]))
+				c.Outcome("violation")
+				return
+			}
+			c.Outcome("ok")
+		})
+	}
 }
